@@ -607,6 +607,28 @@ class Mesh2DTopology:
                 for column, pair in enumerate(node_pairs):
                     renumbered[face_edge[face_index, column]] = sorted(pair)
             return renumbered
+        if self.has_valid_edge_face_connectivity:
+            # The dataset already numbers its edges in edge_face_connectivity:
+            # edge `e` is a side of exactly the faces in row `e`. Keep that
+            # numbering. Sides bordering the same set of faces (the boundary
+            # sides of one face) are interchangeable as far as this table goes.
+            sides: dict[frozenset[int], set[int]] = defaultdict(set)
+            for face_index, node_pairs in self._face_and_node_pair_iter():
+                for pair in node_pairs:
+                    sides[frozenset(int(n) for n in pair)].add(face_index)
+            by_faces: dict[frozenset[int], list[list[int]]] = defaultdict(list)
+            for pair, faces in sides.items():
+                by_faces[frozenset(faces)].append(sorted(pair))
+            edge_face = self.edge_face_array
+            renumbered = numpy.ma.masked_all_like(edge_node)
+            try:
+                for edge_index, faces in enumerate(edge_face):
+                    key = frozenset(int(f) for f in faces.compressed())
+                    renumbered[edge_index] = by_faces[key].pop(0)
+            except IndexError:
+                # edge_face_connectivity does not describe the sides of the faces
+                return edge_node
+            return renumbered
         return edge_node
 
     @utils.timed_func
